@@ -358,6 +358,11 @@ def check(case, obs, tally):
             done_at = obs.eof_at if obs.backend == "asyncio" and obs.eof_at is not None else closed_at
             if obs.backend == "asyncio" and fault != "eof":
                 done_at = None  # reset / write failure: the transport is already gone, nothing to observe
+            hd = getattr(obs, "handler_done_at", None)
+            if obs.handler == "ok" and hd is not None and hd > last_exit + EPS and (done_at is None or done_at <= last_exit + EPS):
+                out.append({"clause": "release", "sig": "C07.release-delayed/%s/handler-after-peer-%s" % (proto, fault),
+                            "detail": "peer gone at %.6f, last application returned at %.6f, but the connection handler finished only at %.6f "
+                                      "(keep_alive_timeout %s)" % (ft, last_exit, hd, T)})
             if done_at is not None and done_at > last_exit + EPS:
                 out.append({"clause": "release", "sig": "C07.release-delayed/%s/peer-%s" % (proto, fault),
                             "detail": "peer gone at %.6f, last application returned at %.6f, but the server closed its side only at %.6f "
